@@ -106,7 +106,7 @@ class RUniverse(Universe):
         for t in self.implant_types:
             at = self.types[t]['attrs']
             if r.random() < 0.85:
-                at[int(A.implantness)] = F(r.choice([1, 1, 2]))
+                at[int(A.implantness)] = F(r.choice([1, 1, 2, 0, 0]))
         t = self.misc_types['rig'][0]
         ty = self.types[t]
         if r.random() < 0.85:
@@ -124,7 +124,7 @@ class RUniverse(Universe):
             ty['attrs'][int(A.subsystem_slot)] = F(r.choice([125, 126]))
         ty = self.types[self.misc_types['booster'][0]]
         if r.random() < 0.85:
-            ty['attrs'][int(A.boosterness)] = F(r.choice([1, 2]))
+            ty["attrs"][int(A.boosterness)] = F(r.choice([1, 2, 0]))
         if r.random() < 0.7:
             ty['category'] = int(TC.implant)
         ty = self.types[self.misc_types['stance'][0]]
